@@ -214,7 +214,7 @@ class World:
     # ------------------------------------------------------------ build on both
     def build(self, program, body, versions=None, *, fault=None, hooks=None,
               model_hooks=None, threads=True, label=None, compare=True, run_model=True,
-              step_opts=None, model_setup_fail=None):
+              step_opts=None, model_setup_fail=None, model_after=None):
         """Run one build step on the model and on the real library and compare."""
         versions = versions or {}
         sr = StepResult()
@@ -225,32 +225,35 @@ class World:
         mctx = Ctx(program, self.sb, False, versions=versions)
         mask = {env.rel(self.sb, d) for d in self.cache_dirs}
         mctx.mask = mask
-        holder = {}
         mctx.mb_getter = lambda: self.api.last_build
         if model_hooks:
             mctx.hooks.update(model_hooks)
         model_disk_before = dict(self.model.disk)
         model_record_before = self.model.record
         had_record = self.model.current_record()
-        if not run_model:
-            # the build is expected to fail (crash point / injected fault): the
-            # oracle is the unchanged pre-state, no model run is needed
-            sr.mres = ['exc', '*']
-            self.api.last_build = None
-        else:
-            try:
-                self.api.next_setup_fail = model_setup_fail
-                v = self.api.build_versioned(self.build_name, versions, make_root(mctx, body))
-                sr.mres = ['ok', v]
-            except UserBoom as e:
-                sr.mres = ['exc', 'UserBoom']
-            except Exception as e:
-                if isinstance(e, AssertionError):
-                    raise
-                sr.mres = ['exc', errname(e)]
-                sr.model_tb = traceback.format_exc()
-        sr.mctx = mctx
-        sr.mb = self.api.last_build
+
+        def run_the_model(setup_fail):
+            if not run_model:
+                # the build is expected to fail (crash point / injected fault): the
+                # oracle is the unchanged pre-state, no model run is needed
+                sr.mres = ['exc', '*']
+                self.api.last_build = None
+            else:
+                try:
+                    self.api.next_setup_fail = setup_fail
+                    v = self.api.build_versioned(self.build_name, versions, make_root(mctx, body))
+                    sr.mres = ['ok', v]
+                except UserBoom as e:
+                    sr.mres = ['exc', 'UserBoom']
+                except Exception as e:
+                    if isinstance(e, AssertionError):
+                        raise
+                    sr.mres = ['exc', errname(e)]
+                    sr.model_tb = traceback.format_exc()
+            sr.mctx = mctx
+            sr.mb = self.api.last_build
+        if model_after is None:
+            run_the_model(model_setup_fail)
         sr.prev_record = had_record
         # ---- real
         sr.pre = self.real_tree()
@@ -261,6 +264,13 @@ class World:
         rctx.hooks.setdefault('threads', threads)
         mon = FsMonitor(self.sb, self.tmp)
         mon.fault = fault
+        if fault is not None:
+            def _on_fire():
+                fc = rctx.current_call()
+                rctx.fault_call = fc
+                # ordinal of this call among the calls with the same key (0-based)
+                rctx.fault_call_ordinal = len(rctx.outcomes.get(fc, [])) if fc is not None else 0
+            fault.on_fire = _on_fire
         rctx.monitor = mon
         sr.mon = mon
         root = make_root(rctx, body)
@@ -284,6 +294,10 @@ class World:
                 sr.real_tb = traceback.format_exc()
             finally:
                 mon.set_phase('outside')
+        if model_after is not None:
+            # the model is told which call failed in setup (and how) by what was
+            # observed in the real run (fault injection, C14)
+            run_the_model(model_after(rctx, mon, sr))
         sr.rctx = rctx
         sr.post = self.real_tree()
         sr.tmp_left = [n for n in sorted(os.listdir(self.tmp)) if n not in tmp_before]
